@@ -6,6 +6,7 @@ import (
 	"fmt"
 	"os"
 	"path/filepath"
+	"runtime/debug"
 	"runtime/pprof"
 	"strings"
 
@@ -61,6 +62,9 @@ func buildOverlay(verifDir string) (map[string][]byte, map[string]string, error)
 }
 
 func main() {
+	if os.Getenv("GOGC") == "" {
+		debug.SetGCPercent(600)
+	}
 	if len(os.Args) < 2 {
 		fmt.Fprintln(os.Stderr, "usage: gosym run|check ...")
 		os.Exit(2)
@@ -141,6 +145,8 @@ func defaultInitPkgs() map[string]bool {
 		"github.com/ClickHouse/ch-go":          true,
 		"github.com/ClickHouse/ch-go/compress": true,
 		"github.com/ClickHouse/ch-go/chpool":   true,
+		"strings":                              true,
+		"strconv":                              true,
 	}
 }
 
